@@ -30,7 +30,7 @@ func runC08(c *Ctx) {
 	if len(work) < 2 {
 		c.undecided("C08-R1: request roots not found")
 	}
-	cg := c.CHA()
+	cg := c.CG()
 	for len(work) > 0 {
 		f := work[len(work)-1]
 		work = work[:len(work)-1]
@@ -147,6 +147,24 @@ func runC08(c *Ctx) {
 	}
 	c.Sites["C08-R1#reachable-functions"] = nReach
 	c.ob("C08-R1", interpPkg+"#request-reachable-functions-scanned", token.NoPos, nReach >= 40, "fewer than 40 functions reachable from the request roots: call graph incomplete")
+
+	// ---- R6 shared budgets are returned on every exit
+	c.rule("C08-R6", "ORD: the interpreter-wide evaluation-depth counter (shared by all in-flight requests, known finding C08-R1) is at least restored on every exit of EvaluateExpression: a leaking exit lets failing requests permanently consume the budget of all later, unrelated requests")
+	if ev := c.fn(interpPkg, "Interpreter.EvaluateExpression"); ev != nil {
+		var inc ssa.Instruction
+		eachInstr(ev, func(_ *ssa.BasicBlock, _ int, ins ssa.Instruction) {
+			if isAtomicAddOn(ins, "Interpreter", "evalDepth", +1) && inc == nil {
+				inc = ins
+			}
+		})
+		if inc != nil {
+			q := &pathQuery{fn: ev, target: isReturn, stop: func(x ssa.Instruction) bool { return isAtomicAddOn(x, "Interpreter", "evalDepth", -1) }}
+			hit, path := q.after(inc)
+			c.ob("C08-R6", interpPkg+".Interpreter.EvaluateExpression#shared-depth-restored-on-every-exit", inc.Pos(), hit == nil, "a return is reachable after the shared depth increment without the decrement: requests that fail (or hit the limit) shrink the budget of every other request until all fail", c.blockPath(path)...)
+		} else {
+			c.info("C08-R6", interpPkg+".Interpreter.EvaluateExpression#no-shared-depth-counter", ev.Pos(), "no shared depth counter is modified here")
+		}
+	}
 
 	// ---- R2 per-request state
 	c.rule("C08-R2", "GOR/ESC: the *vm.VM on which a compiled route executes is created by vm.NewVM() inside the per-request closure (not a captured variable, package variable, pool or field), and Interpreter.ExecuteRoute evaluates the body in an Environment created by NewChildEnvironment inside ExecuteRoute")
